@@ -26,6 +26,7 @@ type c11Gen struct {
 	allowShadowing        bool // a method named like a method of an enclosing scope
 	methodsIn             map[string][]string // scope path -> names of the methods declared there
 	allowSplitIndexField  bool // an IndexField outside the Scope(\) that declares its registers
+	noDeepChain           bool // no chains of deeply nested devices
 }
 
 var c11Predefined = []string{"_GPE", "_PR_", "_SB_", "_SI_", "_TZ_"}
@@ -216,7 +217,29 @@ func (g *c11Gen) body(abs string, depth int) []amlObj {
 		}
 		out = append(out, o)
 	}
+	if depth == 0 && !g.noDeepChain && rapid.IntRange(0, 29).Draw(g.t, "deepchain") == 0 {
+		// devices nested dozens of levels deep, each level declaring a name before and after
+		// the device it contains (what follows a closed block belongs to the enclosing scope)
+		levels := rapid.SampledFrom([]int{8, 16, 31, 32, 33, 60, 61, 62, 63, 64, 65, 66, 100}).Draw(g.t, "chainlevels")
+		out = append(out, g.chain(abs, levels))
+		g.stats.deepChain = levels
+	}
 	return out
+}
+
+func (g *c11Gen) chain(abs string, levels int) amlObj {
+	nm := g.name()
+	o := amlObj{K: "device", Name: amlSeg(nm), Abs: c11JoinPath(abs, nm)}
+	if levels%7 == 3 {
+		o.W = 3
+	}
+	before, after := g.name(), g.name()
+	o.Body = append(o.Body, amlObj{K: "name", Name: amlSeg(before), Abs: c11JoinPath(o.Abs, before), Data: &amlData{K: "word", V: uint64(levels)}})
+	if levels > 1 {
+		o.Body = append(o.Body, g.chain(o.Abs, levels-1))
+	}
+	o.Body = append(o.Body, amlObj{K: "name", Name: amlSeg(after), Abs: c11JoinPath(o.Abs, after), Data: &amlData{K: "word", V: uint64(levels) + 1000}})
+	return o
 }
 
 func (g *c11Gen) fieldElems() []amlFieldElem {
@@ -842,6 +865,7 @@ func TestVerifC11(t *testing.T) {
 			allowSplitIndexField:  !vlib.OpenFinding("F-C11f"),
 		}
 		c := g.program()
+		c.OneParser = rapid.Bool().Draw(t, "oneparser")
 		fail, _ := c11Run(c)
 		var labels []string
 		add := func(on bool, l string) {
@@ -863,6 +887,8 @@ func TestVerifC11(t *testing.T) {
 		add(g.stats.rootScopes > 0, "scope-directive-naming-the-root")
 		add(g.stats.pkgRefs > 0, "package-element-naming-an-object")
 		add(g.stats.shadowed > 0, "method-shadowing-a-method-of-an-enclosing-scope")
+		add(g.stats.deepChain > 0, "devices-nested-8-or-more-deep")
+		add(g.stats.deepChain >= 62, "devices-nested-62-or-more-deep")
 		labels = append(labels, fmt.Sprintf("tables=%d", g.stats.tables))
 		st.Case(c, (g.stats.scopeDirectives > 0 || g.stats.relocated > 0) && g.stats.callsWithArgs > 0, labels...)
 		if fail != nil && strings.HasPrefix(fail.Msg, "VERIF-HARNESS") {
